@@ -130,6 +130,7 @@ type Path struct {
 	tolerant         int // >0 while running package initialisers
 	userData         map[string]interface{}
 	observes         []obsRec
+	envNondet        bool
 }
 
 func (p *Path) checking() bool { return len(p.decisions) >= len(p.prefix) }
@@ -179,6 +180,9 @@ func (p *Path) assume(c *Term) {
 	if c.IsTrue() {
 		return
 	}
+	if p.tolerant > 0 {
+		panic(tolerantFail{"assumption in package initialiser"})
+	}
 	if c.IsFalse() {
 		p.end("assume-false")
 	}
@@ -197,6 +201,9 @@ func (p *Path) record(d Decision) {
 func (p *Path) branch(cond *Term) bool {
 	if cond.IsConst() {
 		return cond.Val == 1
+	}
+	if p.tolerant > 0 {
+		panic(tolerantFail{"symbolic branch in package initialiser"})
 	}
 	if len(p.decisions) < len(p.prefix) {
 		d := p.prefix[len(p.decisions)]
@@ -253,6 +260,9 @@ func (p *Path) branch(cond *Term) bool {
 func (p *Path) concretize(t *Term, max int, what string) uint64 {
 	if t.IsConst() {
 		return t.Val
+	}
+	if p.tolerant > 0 {
+		panic(tolerantFail{"symbolic value in package initialiser"})
 	}
 	if len(p.decisions) < len(p.prefix) {
 		d := p.prefix[len(p.decisions)]
